@@ -5,3 +5,4 @@ import FlowCalModel.Data
 import FlowCalModel.File
 import FlowCalModel.Index
 import FlowCalModel.Pickle
+import FlowCalModel.Heap
